@@ -17,16 +17,27 @@ def main():
     from richchk.model.richchk.trig.player_id import PlayerId
     from richchk.model.richchk.trig.rich_trig_section import RichTrigSection
     from richchk.model.richchk.trig.rich_trigger import RichTrigger
-    rich = SC.load((vlib.REPO / "test/resources/test-chkjson-scx.chk").read_bytes())
-    a = RichSwitch(_custom_name=RichString("alpha"), _index=200)
-    b = RichSwitch(_custom_name=RichString("beta"), _index=200)
-    t = [RichTrigger(_conditions=[], _actions=[SetSwitchAction(_switch=s, _switch_action=SwitchAction.SET)],
-                     _players={PlayerId.PLAYER_1}) for s in (a, b)]
+    raw = (vlib.REPO / "test/resources/test-chkjson-scx.chk").read_bytes()
+    rich = SC.load(raw)
+    mode = sys.argv[1] if len(sys.argv) > 1 else "0"
+    if mode == "1":
+        # variant: the map's own NAMED switch k, referred to by an authored bare index (no name)
+        v0 = SC.SpecView(raw)
+        k = next(i for i in range(256) if v0.switch(i)[1])
+        t = [RichTrigger(_conditions=[], _actions=[SetSwitchAction(_switch=RichSwitch(_index=k), _switch_action=SwitchAction.SET)],
+                         _players={PlayerId.PLAYER_1})]
+        which = k
+    else:
+        a = RichSwitch(_custom_name=RichString("alpha"), _index=200)
+        b = RichSwitch(_custom_name=RichString("beta"), _index=200)
+        t = [RichTrigger(_conditions=[], _actions=[SetSwitchAction(_switch=s, _switch_action=SwitchAction.SET)],
+                         _players={PlayerId.PLAYER_1}) for s in (a, b)]
+        which = 200
     trig = next(s for s in rich.chk_sections if isinstance(s, RichTrigSection))
     rich2 = RichChkEditor().replace_chk_section(RichTrigEditor.add_triggers(t, trig), rich)
     try:
         v = SC.SpecView(SC.save(rich2))
-        print(json.dumps({"switch_200_name": v.switch(200)[1]}))
+        print(json.dumps({"switch": which, "name": v.switch(which)[1]}))
     except Exception as ex:  # noqa
         print(json.dumps({"raised": type(ex).__name__}))
 
